@@ -22,7 +22,9 @@ RootFens == <<
   "4k3/8/8/8/8/8/8/R3K3 w Q - 0 1",          \* castling right that can be lost
   "k7/8/K7/8/8/8/8/7R w - - 0 1",            \* mate in one by the rook
   "4k3/8/8/8/8/8/8/R3K1N1 w Q - 0 1",        \* unequal rights that survive a knight shuffle (threefold with rights)
-  "r3k1n1/8/8/8/8/8/8/4K3 b q - 0 1"         \* the same for Black
+  "r3k1n1/8/8/8/8/8/8/4K3 b q - 0 1",        \* the same for Black
+  "4k3/3p4/8/4P3/4K3/8/8/8 b - - 0 1",       \* ...d5+ can only be met by king moves or exd6 e.p.
+  "b7/8/8/3Pp3/8/6k1/4n3/7K w - e6 0 1"      \* already stalemate although an en-passant square is recorded (capturer pinned)
 >>
 Roots == {ReadFen(RootFens[i]) : i \in 1..Len(RootFens)}
 ASSUME \A p \in Roots : Valid(p)
@@ -80,8 +82,9 @@ Next ==
   /\ LET ms == LegalMoves(cur)
      IN \/ (UNCHANGED realok /\ \E m \in FirstK(ms, MaxLegal) \cup Illegal(cur, ms) : TryMove(m))
         \/ (DeclareDraw /\ realok' = (realok /\ (RealMust \/ ~ClaimOp)))
-        \/ (Mode = "protocol" /\ UNCHANGED realok /\ (\E c \in Colors : OfferDraw(c) \/ Resign(c)))
-        \/ (Mode = "protocol" /\ UNCHANGED realok /\ AcceptDraw)
+        \* in "claims" mode the other actions are explored only where a claim is available (e.g. resign, then declare)
+        \/ ((Mode = "protocol" \/ ClaimOp \/ result # NoResult) /\ UNCHANGED realok /\ (\E c \in Colors : OfferDraw(c) \/ Resign(c)))
+        \/ ((Mode = "protocol" \/ ClaimOp \/ result # NoResult) /\ UNCHANGED realok /\ AcceptDraw)
 
 Spec == Init /\ [][Next]_<<gvars, realok>>
 (* ret is an output, not state: two histories that differ only in the last   *)
